@@ -1829,6 +1829,10 @@ func (p *scionPacketProcessor) processOHP() disposition {
 		// TODO parameter problem -> invalid path
 		return errorDiscard("error", errMalformedPath)
 	}
+	if int(s.PayloadLen) != len(s.Payload) {
+		// Same consistency requirement as for SCION paths (see validatePktLen).
+		return errorDiscard("error", errBadPacketSize)
+	}
 
 	// OHP leaving our IA
 	if p.ingressFromLink == 0 {
